@@ -713,6 +713,46 @@ def check_stages(ctx, c):
         ctx.stat("staging: routing model predicts no fault")
 
 
+
+def check_teacher_then_targets(ctx, g):
+    """online training whose target is first a teacher NODE of the model (the readout learns to reproduce the input node),
+    then ordinary target values: every call trains on the targets IT was given - the explicit per-step loop"""
+    from reservoirpy.nodes import Input, Reservoir, RLS
+    ob = "train/teacher_node_then_targets"
+    d, T1, T2 = g.randint(1, 2), g.randint(3, 6), g.randint(3, 6)
+    c = {"kind": "teacher_then_targets", "d": d, "T1": T1, "T2": T2, "seed": g.randint(0, 10 ** 6)}
+    ctx.count(c, nontrivial=True, obligation=ob)
+    ctx.stat("train with a teacher node, then with target values")
+    gg = common.Gen(c["seed"])
+    X1 = np.array(flow.seq_rows(gg, T1, d), dtype=float)
+    X2 = np.array(flow.seq_rows(gg, T2, d), dtype=float)
+    Y2 = np.array(flow.seq_rows(gg, T2, d, a=2, k=8), dtype=float)
+
+    def parts():
+        return Reservoir(5, seed=c["seed"] % 1000, lr=0.5, sr=0.9, input_connectivity=1.0, rc_connectivity=1.0), RLS(alpha=0.5)
+    try:
+        inp = Input()
+        res, ro = parts()
+        m = inp >> res >> ro
+        m.train(X1, inp)
+        m.train(X2, Y2)
+        res2, ro2 = parts()
+        for X_, Y_ in ((X1, X1), (X2, Y2)):
+            for t in range(len(X_)):
+                s_ = res2.call(X_[t:t + 1])
+                ro2.train(s_, Y_[t:t + 1])
+    except Exception as e:  # noqa
+        ctx.violation(f"online training with a teacher node, then with targets, raised {type(e).__name__}: {e}", c, obligation=ob)
+        return
+    for name in ("Wout", "bias"):
+        a, b = np.asarray(getattr(ro, name), dtype=float), np.asarray(getattr(ro2, name), dtype=float)
+        if a.shape != b.shape or not np.allclose(a, b, rtol=1e-9, atol=1e-12):
+            ctx.violation(f"Model.train(X, teacher_node) followed by Model.train(X, Y): {name} is not the one of the explicit per-step loop trained "
+                          f"on the teacher's outputs, then on Y (max difference {float(np.max(np.abs(a - b))) if a.shape == b.shape else 'shape'}): "
+                          "the second call did not train on the targets it was given", c, obligation=ob)
+            return
+
+
 def check_case(ctx, c):
     common.quiet()
     {"fit": check_fit, "train": check_train, "stages": check_stages}[c["kind"]](ctx, c)
@@ -734,10 +774,16 @@ def run(ctx):
         check_case(ctx, gen_train_case(g))
     for _ in range(ctx.n(150, 2500)):
         check_case(ctx, gen_stage_case(g))
+    for _ in range(ctx.n(8, 80)):
+        check_teacher_then_targets(ctx, g)
 
 
 def replay(ctx, data):
-    if data["case"].get("kind") == "esn_raw_inputs":
+    if data["case"].get("kind") == "teacher_then_targets":
+        common.quiet()
+        for _ in range(8):
+            check_teacher_then_targets(ctx, ctx.gen)
+    elif data["case"].get("kind") == "esn_raw_inputs":
         esn_raw_inputs_witness(ctx)
     else:
         check_case(ctx, data["case"])
